@@ -66,7 +66,12 @@ fn registry() -> Vec<PartEntry> {
         part!("C03", uni::C03Multi),
         part!("C04", uni::C04Uni),
         part!("C04", uni::C04Multi),
+        part!("C05", life::C05Sched),
+        part!("C07", life::C07CancelAll),
+        part!("C16", life::C16Retry),
+        part!("C17", life::C17Churn),
         part!("C18", containers::Standalone),
+        part!("C20", life::C20Suspended),
     ]
 }
 
@@ -121,9 +126,84 @@ fn run_committed_replays(id: &str, cfg: &Cfg, reg: &[PartEntry]) -> (u32, i32) {
     (ran, exit)
 }
 
+/// Runs `rmv <args>` as a child process. `Ok(code)`: it exited by itself; `Err(text)`: it was killed by a signal / aborted.
+fn run_child(args: &[String], quiet: bool) -> Result<i32, String> {
+    let exe = std::env::current_exe().expect("current exe");
+    let mut cmd = std::process::Command::new(exe);
+    cmd.args(args).env("RMV_CHILD", "1");
+    if quiet { cmd.stdout(std::process::Stdio::null()).stderr(std::process::Stdio::null()); }
+    let status = cmd.status().expect("spawn child");
+    match status.code() {
+        Some(c) if c == 0 || c == 1 || c == 2 => Ok(c),
+        Some(c) => Err(format!("exit code {c} (panic / abort)")),
+        None => Err(format!("{status}")),
+    }
+}
+
+/// The checks run in a child process: a case that corrupts memory inside the library kills the child, not the verdict.
+/// On a crash the parent re-runs the cases that were in flight, one per fresh process, and reports the one that crashes.
+fn supervise(args: &[String]) -> ! {
+    let started = Instant::now();
+    match run_child(&args[1..], false) {
+        Ok(code) => std::process::exit(code),
+        Err(how) => {
+            if args[1] == "replay" {
+                let id = std::fs::read_to_string(&args[2]).ok().and_then(|t| serde_json::from_str::<driver::ReplayFile>(&t).ok()).map(|f| f.property).unwrap_or_default();
+                println!("VIOLATION property={id} replay={}", args[2]);
+                println!("  the case crashes the process: {how}");
+                std::process::exit(1);
+            }
+            let id = args[2].clone();
+            let dir = verif_dir().join("evidence").join("replays");
+            let mut culprit: Option<(PathBuf, String)> = None;
+            let mut candidates: Vec<PathBuf> = std::fs::read_dir(&dir).map(|d| d.filter_map(|e| e.ok()).map(|e| e.path())
+                .filter(|p| p.file_name().and_then(|n| n.to_str()).map(|n| n.starts_with(&format!("inflight-{id}-"))).unwrap_or(false)).collect()).unwrap_or_default();
+            candidates.sort();
+            for c in &candidates {
+                if let Err(h) = run_child(&["replay".to_string(), c.display().to_string()], true) { culprit = Some((c.clone(), h)); break; }
+            }
+            let known = driver::load_known(&verif_dir().join("KNOWN_FINDINGS.txt"));
+            let tier = args.get(3).cloned().unwrap_or_else(|| "quick".into());
+            let seed: u64 = std::env::var("VERIF_SEED").ok().and_then(|s| s.trim().parse::<i128>().ok()).map(|v| v as u64).unwrap_or(20260929);
+            let (exit, violations, note) = match culprit {
+                Some((path, h)) => {
+                    let text = std::fs::read_to_string(&path).unwrap_or_default();
+                    let file: Option<driver::ReplayFile> = serde_json::from_str(&text).ok();
+                    let kind = file.as_ref().and_then(|f| f.case.get("kind").map(|k| k.to_string().replace('"', ""))).unwrap_or_default();
+                    let part = file.as_ref().map(|f| f.part.clone()).unwrap_or_default();
+                    let sig = format!("{part}/crash/{kind}");
+                    let keep = dir.join(format!("{id}-{part}-crash.json"));
+                    if let Some(mut f) = file { f.signature = sig.clone(); f.detail = format!("the case crashes the process: {h}"); let _ = std::fs::write(&keep, serde_json::to_string_pretty(&f).unwrap()); }
+                    if let Some(k) = known.iter().find(|k| k.property == id && k.signature == sig) {
+                        println!("KNOWN-FINDING: property={id} sig={sig} {} (the search stops at a crash: re-run with another VERIF_SEED to look further)", k.text);
+                        (0, 0, format!("known crash {sig}"))
+                    } else {
+                        println!("VIOLATION property={id} replay={}", keep.display());
+                        println!("  signature={sig}\n  the case crashes the process ({h}); confirmed by re-running it alone in a fresh process");
+                        (1, 1, format!("crash {sig}"))
+                    }
+                },
+                None => {
+                    println!("INCONCLUSIVE property={id}: the check process died ({how}) but none of the {} in-flight cases crashes on its own; this is not reported as a violation", candidates.len());
+                    (2, 0, "unreproduced crash".to_string())
+                },
+            };
+            for c in &candidates { let _ = std::fs::remove_file(c); }
+            let evidence = serde_json::json!({
+                "property_id": id, "tier": tier, "seed": seed, "level": "exploration",
+                "coverage": { "evaluations": 0, "distinct_nontrivial": 0, "rule": "the check process was killed by a crash inside a case; see explanation", "samples": [note.clone()], "explanation": note },
+                "assumptions": [], "wall_s": started.elapsed().as_secs_f64(), "violations": violations,
+            });
+            let _ = std::fs::write(verif_dir().join("evidence").join(format!("{id}.json")), serde_json::to_string_pretty(&evidence).unwrap());
+            std::process::exit(exit);
+        },
+    }
+}
+
 fn main() {
     let args: Vec<String> = std::env::args().collect();
     if args.len() < 2 { usage(); }
+    if std::env::var("RMV_CHILD").is_err() && (args[1] == "check" && args.len() >= 4 || args[1] == "replay" && args.len() >= 3) { supervise(&args); }
     match args[1].as_str() {
         "check" => {
             if args.len() < 4 { usage(); }
@@ -141,6 +221,7 @@ fn main() {
                 replays_out: verif_dir().join("evidence").join("replays"),
                 case_scale,
                 survey: std::env::var("VERIF_SURVEY").is_ok(),
+                inflight_every_case: false,
             };
             start_watchdog(180);
             let started = Instant::now();
